@@ -57,6 +57,22 @@ def core(max_tiles):
     return gen
 
 
+def hand_made_tuple_rows():
+    """The manual entry point with rows written as tuples: every loose-tile pattern of the small shapes (a
+    row of two 0/1 flags looks like a coordinate pair), two arrow patterns each."""
+    idx = 0
+    for (L, W) in ((1, 1), (1, 2), (2, 1), (2, 2), (3, 2), (2, 3), (1, 3)):
+        t = L * W
+        for loose in itertools.product((0, 1), repeat=t):
+            for arrows in ([1] * t, [(i * 7 + 2) % 4 for i in range(t)]):
+                tb, rb, lb = TRIPLES[idx % 3]
+                idx += 1
+                yield dict(moves=[list(arrows[i * W:(i + 1) * W]) for i in range(L)],
+                           rewards=[[1 + i * W + j for j in range(W)] for i in range(L)],
+                           loose=[list(loose[i * W:(i + 1) * W]) for i in range(L)],
+                           tb=tb, rb=rb, lb=lb, entry="manual", rows="tuple")
+
+
 @st.composite
 def sampled(draw, max_side=6):
     b = draw(boards.boards(max_len=max_side, max_wid=max_side))
@@ -65,6 +81,12 @@ def sampled(draw, max_side=6):
         if draw(st.booleans()):
             # hand-made boards may carry fractional tile rewards (the random generator only emits integers)
             b["rewards"] = [[draw(st.sampled_from((0, 1, 2, 0.5, 1.25, 0.75, 2.5, 3))) for _ in row] for row in b["rewards"]]
+        elif draw(st.booleans()):
+            # rewards with more than six significant digits
+            b["rewards"] = [[draw(st.sampled_from((0, 1, 1000001, 123456789, 0.1234567, 2 ** 40 + 1, 1234567.25)))
+                             for _ in row] for row in b["rewards"]]
+        # the rows of a hand-made board may be written as tuples just as well as lists
+        b["rows"] = draw(st.sampled_from(("list", "list", "tuple")))
     return b
 
 
@@ -75,7 +97,7 @@ def from_generator(draw):
     width = draw(st.integers(1, 7))
     fd = draw(st.booleans())
     p = draw(st.sampled_from((0.1, 0.3, 0.5, 0.9)))
-    return dict(gen=[seed, length, width, p, draw(st.sampled_from((1, 6, 20))), fd],
+    return dict(gen=[seed, length, width, p, draw(st.sampled_from((1, 6, 20, 10 ** 7))), fd],
                 tb=draw(boards.PROBS), rb=draw(boards.PROBS), lb=draw(boards.PROBS))
 
 
@@ -114,11 +136,13 @@ def wide_tall(tier="quick"):
 def phases(tier):
     if tier == "quick":
         return [Phase("boards<=3-tiles", enum=core(3), exhaustive=True, note="all boards with at most 3 tiles"),
+                Phase("hand-made-boards-with-tuple-rows", enum=hand_made_tuple_rows),
                 Phase("wide-and-tall-boards", enum=lambda: wide_tall("quick")),
                 Phase("sampled-boards", strategy=lambda: sampled(5), examples=(260, 0)),
                 Phase("generator-boards", strategy=from_generator, examples=(60, 0)),
                 Phase("command-line-runs", strategy=through_cli, examples=(80, 0))]
     return [Phase("boards<=4-tiles", enum=core(4), exhaustive=True, note="all 13 448 boards with at most 4 tiles"),
+            Phase("hand-made-boards-with-tuple-rows", enum=hand_made_tuple_rows),
             Phase("wide-and-tall-boards", enum=lambda: wide_tall("thorough")),
             Phase("sampled-boards", strategy=lambda: sampled(6), examples=(0, 5000)),
             Phase("generator-boards", strategy=from_generator, examples=(0, 1500)),
@@ -163,8 +187,10 @@ def emitted_games(board):
     cwd = os.getcwd()
     os.chdir(d)
     try:
+        row = tuple if board.get("rows") == "tuple" else list
         r.stochastic_game_from_roborta_board.create_sg_from_board(
-            board["moves"], board["rewards"], board["loose"], board["rb"], board["lb"], board["tb"])
+            [row(x) for x in board["moves"]], [row(x) for x in board["rewards"]], [row(x) for x in board["loose"]],
+            board["rb"], board["lb"], board["tb"])
         files = os.listdir("inputs")
         if len(files) != 1:
             raise RuntimeError(f"manual entry point wrote {files}")
@@ -202,6 +228,10 @@ def check_case(board):
         v.cls("down_only_present")
     if board.get("entry") == "manual":
         v.cls("manual_entry_point")
+        if board.get("rows") == "tuple":
+            v.cls("rows_written_as_tuples")
+    if any(len(repr(float(x)).replace(".", "").replace("-", "").strip("0")) > 6 for row in board["rewards"] for x in row):
+        v.cls("reward_with_more_than_6_significant_digits")
     try:
         gms = emitted_games(board)
     except Exception as e:
